@@ -3606,6 +3606,14 @@ pub fn register_datamodel(name: &str, factory: Box<dyn DatamodelFactory>) {
         .insert(name.to_lowercase(), factory);
 }
 
+/// Returns true if a data model with this name (case-insensitive) is registered.
+pub fn is_datamodel_supported(name: &str) -> bool {
+    datamodel_factories
+        .lock()
+        .unwrap()
+        .contains_key(&name.to_lowercase())
+}
+
 pub fn create_datamodel(
     name: &str,
     global_data: GlobalDataArc,
